@@ -73,7 +73,9 @@ func ImportBlocks(
 		return e.Wrap(err)
 	}
 
-	if int64(len(ims)) < batchlimit {
+	// NOTE the importers of the last batch are not saved yet, even if the
+	// last batch is full
+	if len(ims) > 0 {
 		if err := saveImporters(ctx, ims, mergeBlockWriterDatabasesf); err != nil {
 			return e.WithMessage(err, "save importers")
 		}
